@@ -645,6 +645,38 @@ func selfRecursive(fd *ast.FuncDecl) bool {
 	return found
 }
 
+type idxSite struct {
+	fn            string
+	split0, other int
+}
+
+// `f(..)[<integer literal>]`: an index into a call's result. strings.Split / SplitN / Fields(..)[0] apart (Split never
+// returns an empty slice; Fields may - it counts as "other"), such an index is in range only if the callee returns enough.
+func literalIndexOnCall(fd *ast.FuncDecl) (split0, other int) {
+	ast.Inspect(fd.Body, func(n ast.Node) bool {
+		ix, ok := n.(*ast.IndexExpr)
+		if !ok {
+			return true
+		}
+		lit, ok := ix.Index.(*ast.BasicLit)
+		if !ok || lit.Kind != token.INT {
+			return true
+		}
+		c, ok := ix.X.(*ast.CallExpr)
+		if !ok {
+			return true
+		}
+		ch := selChain(c.Fun)
+		if lit.Value == "0" && len(ch) == 2 && ch[0] == "strings" && (ch[1] == "Split" || ch[1] == "SplitN" || ch[1] == "SplitAfter") {
+			split0++
+		} else {
+			other++
+		}
+		return true
+	})
+	return
+}
+
 func coqBool(b bool) string {
 	if b {
 		return "true"
@@ -979,7 +1011,7 @@ func cmdGuards(repo string) (string, error) {
 		"pkg/mermaid", "pkg/mermaid/sequencediagram", "pkg/mermaid/integrationdiagram", "pkg/mermaid/datamodeldiagram",
 		"pkg/mermaid/endpointanalysisdiagram", "pkg/sequencediagram", "pkg/syslwrapper", "pkg/syslutil", "pkg/loader",
 		// round 3: the packages template, codegen, transform, test-rig, repl and lsp reach
-		"pkg/transforms", "pkg/testrig", "pkg/eval", "pkg/validate", "pkg/ebnfparser", "pkg/arrai/transform", "pkg/lspimpl", "pkg/lspimpl/lspframework", "pkg/msg"}
+		"pkg/importer", "pkg/transforms", "pkg/testrig", "pkg/eval", "pkg/validate", "pkg/ebnfparser", "pkg/arrai/transform", "pkg/lspimpl", "pkg/lspimpl/lspframework", "pkg/msg"}
 	type site struct {
 		fn   string
 		kind string
@@ -987,6 +1019,7 @@ func cmdGuards(repo string) (string, error) {
 	}
 	var sites []site
 	var recursive []string
+	var idxSites []idxSite
 	for _, d := range dirs {
 		ents, err := os.ReadDir(filepath.Join(repo, d))
 		if err != nil {
@@ -1020,6 +1053,9 @@ func cmdGuards(repo string) (string, error) {
 				if selfRecursive(fd) {
 					recursive = append(recursive, name)
 				}
+				if s0, other := literalIndexOnCall(fd); s0+other > 0 {
+					idxSites = append(idxSites, idxSite{name, s0, other})
+				}
 				np := countCalls(fd, isPanicCall)
 				for i := 0; i < np; i++ {
 					sites = append(sites, site{name, "panic", i + 1})
@@ -1037,7 +1073,7 @@ func cmdGuards(repo string) (string, error) {
 	}
 	var b strings.Builder
 	b.WriteString("(* GENERATED by translate/cmdguards.go from the repository source - do not edit. *)\n")
-	b.WriteString("From Coq Require Import List String NArith.\nImport ListNotations.\nRequire Import Verif.Cmds.Walk Verif.Cmds.Model.\nLocal Open Scope string_scope.\n\n")
+	b.WriteString("From Coq Require Import List String NArith.\nImport ListNotations.\nRequire Import Verif.Cmds.Walk Verif.Cmds.Model Verif.Cmds.FmtModel Verif.Cmds.ImpModel.\nLocal Open Scope string_scope.\n\n")
 	fmt.Fprintf(&b, "Definition current : guards := {|\n  g_ints_target := %s;\n  g_ints_disc := %s;\n  g_dm_path := %s;\n  g_swagger_rest := %s;\n  g_sw_param_schema := %s;\n  g_oa3_ret_split := %s;\n  g_db_path := %s;\n  g_db_writer_path := %s;\n  g_db_progress := %s;\n  g_mseq_err := %s;\n  g_mseq_disc := %s;\n  g_mint_app := %s;\n  g_mint_disc := %s;\n  g_render_recover := %s;\n  g_sd_target := %s;\n  g_sd_disc := %s;\n  g_delta_relation := %s;\n  g_coldef_ref := %s;\n  g_coldef_auto := %s;\n  g_coldef_plain := %s;\n  g_delta_trim := %s;\n  g_db_short_done := %s;\n  g_coldef_fk_only := %s;\n  g_oa3_nested_rets := %s;\n  g_tmpl_app := %s;\n  g_rig_nilapp := %s |}.\n\n",
 		coqBool(gIntsTarget), discInts, coqBool(gDmPath), coqBool(gSwagger), coqBool(gSwParam), coqBool(gOa3), coqBool(gDbPath), coqBool(gDbWriter), coqBool(gDbProgress), coqBool(gMseq), discMseq, coqBool(gMint), discMint, coqBool(gRender), coqBool(gSdTarget), discSd, coqBool(gDeltaRel), coqBool(cdRef), coqBool(cdAuto), coqBool(cdPlain), coqBool(gDeltaTrim), coqBool(gDbShortDone), coqBool(cdFkOnly), coqBool(gOa3Nested), coqBool(gTmplApp), coqBool(gRigNil))
 	fmt.Fprintf(&b, "(* cmd/sysl main / main2 / main3 / cmdRunner.Run run the command under a deferred recover *)\nDefinition top_recover : bool := %s.\n\n", coqBool(topRecover))
@@ -1061,8 +1097,24 @@ func cmdGuards(repo string) (string, error) {
 		fmt.Fprintf(&b, "  \"%s\"%s\n", r, sep)
 	}
 	b.WriteString("].\n\n")
+	b.WriteString("(* (package.function, n0, n): the function indexes the result of a call with an integer literal - `f(..)[k]` - n0 times as\n   `strings.Split*(..)[0]` (never out of range) and n times otherwise (safe only if the callee's result is long enough) *)\n")
+	b.WriteString("Definition literal_index_sites : list (string * N * N) := [\n")
+	for i, x := range idxSites {
+		sep := ";"
+		if i == len(idxSites)-1 {
+			sep = ""
+		}
+		fmt.Fprintf(&b, "  (\"%s\", %d%%N, %d%%N)%s\n", x.fn, x.split0, x.other, sep)
+	}
+	b.WriteString("].\n\n")
 	for _, n := range notes {
 		fmt.Fprintf(&b, "(* %s *)\n", n)
 	}
+	// second table: the facts about the error paths (format strings of the model, the importer's name stack)
+	ep, err := cmdGuardsErrorPaths(repo)
+	if err != nil {
+		return "", err
+	}
+	b.WriteString("\n" + ep)
 	return b.String(), nil
 }
